@@ -133,3 +133,27 @@ def run(ctx):
                 ctx.report(f"{name}: option vector '{vn}' changes the result: reference (all optimisations off) {ref}, with options {got}",
                            {"instance": zoo.describe(info), "options": o, "reference_options": vs[0][1], "reference": list(ref), "got": list(got)})
                 break
+
+    # flow decomposition with constraints from arbitrary routes and relaxed coverage: the greedy shortcut, the safety
+    # options and the plain MILP must agree
+    import flowpaths as fp
+    for i in range(ctx.budget(700, 8000)):
+        rng = ctx.rng("advfd", i)
+        G, cons, cov, is_int = gen2.adversarial_fd_instance(rng)
+        if not cons:
+            continue
+        base = dict(flow_attr="flow", weight_type=int if is_int else float, subpath_constraints=cons,
+                    subpath_constraints_coverage=cov, solver_options={"threads": zoo.THREADS})
+        info = {"class": "MinFlowDecomp", "G": G, "kwargs": base, "node": False}
+        off = {f: False for f in flags_for("MinFlowDecomp")}
+        ref = outcome(info, off)
+        ctx.case(["advfd", zoo.describe(info)], nontrivial=ref[0] == "solved"); ctx.count("E2_option_vectors", "adversarial_constraint_cases")
+        for vn, o in (("default", None), ("greedy", dict(off, optimize_with_greedy=True)),
+                      ("greedy+flow-safe", dict(off, optimize_with_greedy=True, optimize_with_flow_safe_paths=True)),
+                      ("safe-paths+constraints-as-safe-sequences", dict(off, optimize_with_safe_paths=True, optimize_with_subpath_constraints_as_safe_sequences=True))):
+            got = outcome(info, o)
+            ctx.count("E2_option_vectors", "runs")
+            if not same(ref, got):
+                ctx.report(f"MinFlowDecomp: option vector '{vn}' changes the result: reference (all optimisations off) {ref}, with options {got}",
+                           {"instance": zoo.describe(info), "options": o, "reference_options": off, "reference": list(ref), "got": list(got)})
+                break
